@@ -20,13 +20,14 @@ from props import ct_steps as S
 
 ID = "C03"
 TARGETS = ["PW.Props.C03", "PW.Props.C03Gen"]
-RULE = ("histories of 0..30 appending calls drawn from three streams: lattice (integer/half-integer translations, "
+RULE = ("histories of 0..30 appending calls drawn from four streams: lattice (integer/half-integer translations, "
         "power-of-two uniform and non-uniform scales incl. negative ones with allow_flipping, flips, the 24 cube rotations, "
         "integer shear matrices with given or numerically computed inverse: all arithmetic exact), float (translations "
         "1e-3..1e3, scales 0.1..10, unit conversions, random rotation matrices, rational rotations from integer quaternions, "
         "Rodrigues vectors incl. zero and angles > pi, reorient, explicit affine matrices with given / omitted inverse), "
         "malformed (refused parameters interleaved with valid steps: zero / negative factors, flip axis outside 0..2, "
-        "degenerate up/look, singular matrix without inverse). Per history: every from_range pair when len <= 5, else (0,len), 6 "
+        "degenerate up/look, singular matrix without inverse), nonaffine (lattice histories of 1..9 steps holding one or "
+        "two exactly invertible small-integer unimodular explicit matrices whose last row is not 0 0 0 1). Per history: every from_range pair when len <= 5, else (0,len), 6 "
         "single-step ranges (i,i+1) and 10 sampled pairs, None, and out-of-domain Python slices (negative, stop>len, "
         "start>stop); each pair with reverse on/off, both values of discard_z and of treat_input_as_vector, single/stack (k in 0..4). "
         "Model instantiations: exact rationals and Float for everything, except float-stream histories with more than 10 "
@@ -39,8 +40,10 @@ TRUSTED = ["np.linalg.inv: the matrix it returns (or the LinAlgError it raises) 
            "(or the ValueError) is passed to the model as data; the oracle uses independent formulas",
            "np.dot / np.pad / np.delete modelled as matrix product, homogeneous padding, dropping w",
            "IEEE rounding not modelled: numeric outputs compared with 1e-9 * (entrywise bound of the absolute matrix products)"]
-ASSUMPTIONS = ["explicit matrices given to append_transform have last row 0 0 0 1 for the step-by-step reading in 3-D "
-               "(the oracle carries homogeneous coordinates, so non-affine matrices are still checked in homogeneous form)",
+ASSUMPTIONS = ["KNOWN FINDING roundtrip/non-affine-explicit-matrix: append_transform accepts matrices whose last row is not "
+               "0 0 0 1; apply_transform drops w without dividing, so for ranges holding such a step the call is not the 3-D "
+               "step-by-step action and reverse does not undo it (Lean: C03_*_defect_witness); such ranges are generated in a "
+               "dedicated stream, model and code agree on them, the matrix clauses (homogeneous form, inverse) still hold",
                "points have shape (3,) or (k,3) (shape refusal is C20)"]
 EXHAUSTIVE = {"quick": False, "thorough": False}
 
@@ -68,7 +71,8 @@ def gen_ranges(rng, n):
 
 def gen(rng, tier):
     quick = tier == "quick"
-    plan = [("lattice", 100 if quick else 1400), ("float", 70 if quick else 900), ("malformed", 30 if quick else 350)]
+    plan = [("lattice", 80 if quick else 1400), ("float", 55 if quick else 900), ("malformed", 25 if quick else 350),
+            ("nonaffine", 20 if quick else 300)]
     for stream, count in plan:
         for i in range(count):
             r = rng.random()
@@ -78,7 +82,14 @@ def gen(rng, tier):
             if i == 1:
                 n = 30
             base = "float" if stream == "float" or (stream == "malformed" and rng.random() < 0.5) else "lattice"
-            steps = S.gen_history(rng, base, n, bad_rate=0.35 if stream == "malformed" else 0.0)
+            if stream == "nonaffine":
+                # dedicated share: exactly invertible explicit matrices whose last row is not 0 0 0 1 (accepted by
+                # append_transform; known finding roundtrip/non-affine-explicit-matrix)
+                n = rng.randint(0, 7)
+                steps = S.gen_history(rng, "lattice", n, nonaffine_steps=rng.choice([1, 1, 2]))
+                n = len(steps)
+            else:
+                steps = S.gen_history(rng, base, n, bad_rate=0.35 if stream == "malformed" else 0.0)
             k = rng.choice([0, 1, 2, 3, 4])
             yield {"op": "ct-history", "stream": stream, "base": base, "steps": steps,
                    "ranges": gen_ranges(rng, n),
@@ -241,6 +252,10 @@ def oracle(spec):
         sel = kept if r is None else kept[r[0]:r[1]]
         sel_steps = kept_steps if r is None else kept_steps[r[0]:r[1]]
         affine = all(a[2] for a in sel)
+
+        def key(k_, affine=affine):
+            # a range holding an explicit matrix whose last row is not 0 0 0 1: the 3-D clauses are known to fail
+            return k_ if affine else "roundtrip/non-affine-explicit-matrix"
         stored = ct.transforms if r is None else ct.transforms[r[0]:r[1]]
         bnd_f = float(np.max(S.abs_bound([f for f, _ in stored])))
         bnd_i = float(np.max(S.abs_bound([i for _, i in reversed(stored)])))
@@ -278,27 +293,26 @@ def oracle(spec):
                 bnd = bnd_i if rev else bnd_f
                 tol = Fraction(1e-9) * Fraction(max(bnd, 1.0) * pm * 4)
                 got = ct(p.copy(), from_range=ra, reverse=rev, treat_input_as_vector=av)
-                want = S.fold(sel, fpt(p, 0 if av else 1), rev)[:3]
+                want = S.fold3(sel, fpt(p, 0)[:3], 0 if av else 1, rev)
                 g = [Fraction(float(x)) for x in got]
                 if np.shape(got) != (3,) or any(abs(a - b) > tol for a, b in zip(g, want)):
-                    bad("call/%s%s%s" % ("reverse" if rev else "forward", "-vector" if av else "", tag),
+                    bad(key("call/%s%s%s" % ("reverse" if rev else "forward", "-vector" if av else "", tag)),
                         "ct(%s, from_range=%s, reverse=%s, treat_input_as_vector=%s) = %s, applying the steps one after another gives %s"
                         % (p.tolist(), r, rev, av, np.asarray(got).tolist(), [float(x) for x in want]))
-                # round trip (needs every explicit matrix in range to be affine for the 3-D reading)
-                if affine:
-                    back = ct(np.asarray(got, dtype=np.float64).copy(), from_range=ra, reverse=not rev, treat_input_as_vector=av)
-                    tolb = Fraction(1e-9) * Fraction(max(bnd_f * bnd_i, 1.0) * pm * 8)
-                    if any(abs(Fraction(float(a)) - Fraction(float(b))) > tolb for a, b in zip(back, p)):
-                        bad("roundtrip/%s%s%s" % ("reverse-first" if rev else "forward-first", "-vector" if av else "", tag),
-                            "range %s: %s went to %s and came back as %s" % (r, p.tolist(), np.asarray(got).tolist(), np.asarray(back).tolist()))
+                # round trip
+                back = ct(np.asarray(got, dtype=np.float64).copy(), from_range=ra, reverse=not rev, treat_input_as_vector=av)
+                tolb = Fraction(1e-9) * Fraction(max(bnd_f * bnd_i, 1.0) * pm * 8)
+                if any(abs(Fraction(float(a)) - Fraction(float(b))) > tolb for a, b in zip(back, p)):
+                    bad(key("roundtrip/%s%s%s" % ("reverse-first" if rev else "forward-first", "-vector" if av else "", tag)),
+                        "range %s: %s went to %s and came back as %s" % (r, p.tolist(), np.asarray(got).tolist(), np.asarray(back).tolist()))
             # vector mode ignores translations: same answer from the history without its translate steps
             if av:
                 lin = [a for a, st in zip(sel, sel_steps) if not S.is_translation(st)]
-                want = S.fold(lin, fpt(p, 0), False)[:3]
+                want = S.fold3(lin, fpt(p, 0)[:3], 0, False)
                 got = ct(p.copy(), from_range=ra, treat_input_as_vector=True)
                 tol = Fraction(1e-9) * Fraction(max(bnd_f, 1.0) * pm * 4)
                 if any(abs(Fraction(float(a)) - b) > tol for a, b in zip(got, want)):
-                    bad("vector/ignores-translation" + tag, "range %s: vector %s gives %s, without the translations %s"
+                    bad(key("vector/ignores-translation" + tag), "range %s: vector %s gives %s, without the translations %s"
                         % (r, p.tolist(), np.asarray(got).tolist(), [float(x) for x in want]))
         # --- stack = map, discard_z only drops z -----------------------------------------------------------------
         rev = rng.random() < 0.5
